@@ -104,6 +104,17 @@ pub fn check_layout(c: &LayoutCase) -> Check {
         }
         other => return Err(Fail::new("vcp:frame-wrong-contents", format!("type 5 frame decoded as {:?}", std::mem::discriminant(other)))),
     }
+    // frame path from a reader positioned inside a larger source (after a 24-byte volume header or an earlier frame)
+    {
+        let lead = if c.filler.len() % 2 == 0 { 24 } else { bytes.len() };
+        let mut shifted = vec![0x3Cu8; lead];
+        shifted.extend_from_slice(&bytes);
+        let mut cur = Cursor::new(&shifted[..]);
+        cur.set_position(lead as u64);
+        let again = no_panic("decode_messages", || decode_messages(&mut cur))?
+            .map_err(|e| Fail::new("vcp:wellformed-rejected-at-offset", format!("reader positioned {} bytes into its source: {:?}", lead, e)))?;
+        ensure!(again == decoded, "vcp:frame-depends-on-reader-position", "decode_messages from a reader positioned {} bytes into its source returns a different message list ({} messages instead of 1)", lead, again.len());
+    }
     Ok(())
 }
 
